@@ -260,9 +260,9 @@ def gen_chainops(rng, nops=None):
     rng.shuffle(cands)
     ops = prologue(dostype, clock=(2014, 5, 6, 7, 8, 9))
     if dostype & 4 and rng.random() < 0.5: ops.append("usedirc 1")
-    live = []
+    live = []; dirs = []
     for i, nm in enumerate(cands[:rng.randint(6, 10)]):
-        if rng.random() < 0.3: ops.append(f"mkdir 0 0 {hx(nm)}")
+        if rng.random() < 0.3: ops.append(f"mkdir 0 0 {hx(nm)}"); dirs.append(nm)
         else: ops += [f"open 1 0 0 {hx(nm)} 2", f"write 1 {rng.choice([10, 600, 2000])} {i + 3}", "close 1"]
         live.append(nm)
     ops.append(f"mkdir 0 0 {hx(b'elsewhere')}")
@@ -275,7 +275,10 @@ def gen_chainops(rng, nops=None):
         elif r < 0.6 and spare:
             new = spare.pop(); ops.append(f"rename 0 0 {hx(nm)} {hx(new)}"); live.remove(nm); live.append(new)
         elif r < 0.75:
-            ops.append(f"rename 0 0 {hx(nm)} {hx(nm[:20] + b'_mv')} / {hx(b'elsewhere')}"); live.remove(nm)
+            # move out of the chain: into an unrelated directory, or into a directory that is itself a member of the chain
+            inchain = [d for d in dirs if d in live and d != nm]
+            dest = rng.choice(inchain) if inchain and rng.random() < 0.6 else b'elsewhere'
+            ops.append(f"rename 0 0 {hx(nm)} {hx(nm[:20] + b'_mv')} / {hx(dest)}"); live.remove(nm)
         elif r < 0.9:
             ops.append(f"comment 0 0 {hx(nm)} {hx(b'c' * rng.choice([1, 30, 79]))}")
         else:
